@@ -3,3 +3,23 @@ claim("C16",
       "Trusted: the hexlint abstract interpreter and its Fourier-Motzkin entailment; the contracts of absindex/valid_index (checked against their bodies in C20); the six reviewed len(candles) validity guards frozen in rules_analysis.py. Does not decide what the predicates mean (C17).",
       "abstract interpretation + polyhedra entailment of position obligations (R-NORM/R-WRAP/R-CAUSAL/R-NONE)",
       "DESIGN.md §4 C16, §3 position rules")
+claim("C01",
+      "Decides the structural preconditions of the batch==incremental induction for all indicators and inputs: reads of _calculate_reading(t) lie in [0,t] and writes hit index t of own series (abstract interpretation + polyhedra entailment), formula code keeps no state on the object, the sweep starts at a sound resume index and skips present readings, sub-indicators run before/after the parent, append = manager tasks then calculate, merge restores raw values and wipes the bucket. Equality of readings on collapsing timeframes also needs the collapse walk invariant (C03), which is not decided.",
+      "Assumes no trimming and input contiguity for the inductive warm-up bound; the collapsed candle list's schedule independence is not decided. Trusted: hexlint engine.",
+      "abstract interpretation (position obligations) + syntax-directed ordering/typestate rules",
+      "DESIGN.md §4 C01")
+claim("C02",
+      "Decides 'no look-ahead, written once' structurally for every input: every positional read in the 27 formulas and in all movement/pattern functions is proven to lie in [0, evaluated index] (a negative position is a read of the newest candle), every write targets the evaluated index and an own series, the sweep skips present readings, the resume mark is key membership, and collapse merges only into the last bucket and re-labels only the candle being placed.",
+      "Does not decide that collapse never re-labels an earlier bucket for every timestamp pattern (needs C03's loop invariant). Inductive warm-up bound assumes no trimming.",
+      "abstract interpretation + Fourier-Motzkin entailment of R-WRAP/R-CAUSAL/R-WRITE obligations",
+      "DESIGN.md §4 C02")
+claim("C07",
+      "Decides the O(1)-per-append guarantee as a shape of the code: every loop/reduction/slice reachable from a calculation has a trip count bounded by a configuration-linear expression (proved in the polyhedra domain for clamped windows), helper recompute ranges have length 1, no whole-history function is reachable from the calculation path in the resolved call graph, and the sweep starts from a newest-first resume scan and skips present readings. A regression that recomputes history returns identical values, so only a structural/complexity argument can see it.",
+      "collapse/trim/fill are O(n) per append and outside the property's observation scope (noted). Call graph resolution is name/receiver based and conservative; helper construction in _initialise is treated as one-shot.",
+      "loop-bound analysis + call-graph reachability (R-BOUND/R-SPAN/R-HISTORY)",
+      "DESIGN.md §4 C07")
+claim("C09",
+      "Exception-source audit over all inputs: every division, sqrt, truthiness-as-presence test and literal helper/field name in the calculation scope is enumerated from the abstract interpretation and discharged by sign analysis (with inductive helper summaries and compositional sign tracking), dominating non-zero facts, or resolution in the composition tree. Genuine zero-denominator defects that remain (STOCH, VWMA, TSI) are listed as known findings.",
+      "Assumes well-formed candles, positive price input, periods >= 2, positive multipliers; overflow to inf and None-arithmetic beyond the contiguity assumption are not decided.",
+      "abstract interpretation + sign domain (R-DIV/R-SQRT/R-TRUTH/R-WIRE)",
+      "DESIGN.md §4 C09")
